@@ -84,6 +84,39 @@ pub fn run_case(f: &[&str]) -> String {
         let bx = |p: Pieces| -> Box<dyn Read + Send> { Box::new(p) };
         let mut r: Response<Box<dyn Read + Send>> = match ctor {
             "new" => Response::new(StatusCode(st), hs.clone(), bx(rd(body.clone())), len, None),
+            // the same headers handed over through the constructor's channel argument instead of the vector
+            "newch" => {
+                let (tx, rx) = std::sync::mpsc::channel();
+                for h in hs.iter() {
+                    let _ = tx.send(h.clone());
+                }
+                drop(tx);
+                Response::new(StatusCode(st), vec![], bx(rd(body.clone())), len, Some(rx))
+            }
+            // Response::empty, the header/status/threshold operations applied to it, then a CLONE of it is printed
+            "emptyc" => {
+                let mut r0 = Response::empty(st);
+                if ops != "-" {
+                    for op in ops.split(';') {
+                        let (k, rest) = op.split_at(1);
+                        match k {
+                            "H" | "A" => {
+                                let mut it = rest.splitn(2, ':');
+                                let n = unhex(it.next().unwrap());
+                                let v = unhex(it.next().unwrap());
+                                r0 = r0.with_header(mk_header(&n, &v).unwrap());
+                            }
+                            "S" => r0 = r0.with_status_code(rest.parse::<u16>().unwrap()),
+                            "T" => r0 = r0.with_chunked_threshold(rest.parse::<usize>().unwrap()),
+                            _ => {}
+                        }
+                    }
+                }
+                let c = r0.clone();
+                drop(r0);
+                let dl = c.data_length();
+                c.with_data(bx(rd(Vec::new())), dl)
+            }
             "data" => {
                 let r0 = Response::from_data(body.clone());
                 let dl = r0.data_length();
@@ -110,7 +143,7 @@ pub fn run_case(f: &[&str]) -> String {
             }
             _ => panic!("ctor {}", ctor),
         };
-        if ops != "-" {
+        if ops != "-" && ctor != "emptyc" {
             for op in ops.split(';') {
                 let (k, rest) = op.split_at(1);
                 match k {
